@@ -218,6 +218,7 @@ class Analyzer:
 
         facts: Dict[str, bool] = {}
         for t, pol in G.enclosing_tests(self.fn, node):
+            t = self._flag_def(t)
             while isinstance(t, ast.UnaryOp) and isinstance(t.op, ast.Not):
                 t, pol = t.operand, not pol
             facts[K(t)] = pol
@@ -735,7 +736,22 @@ class Analyzer:
                             self.new_res(s, None, c, f"result of {q.split('.')[-1]} (discarded)")
 
     # -- tests ------------------------------------------------------------
+    def _flag_def(self, t):
+        """a test that is a local bound exactly once to a pure boolean expression (isinstance / comparison / not / and / or)
+        stands for that expression: `flag = isinstance(x, T) ... if flag:` carries the same fact as `if isinstance(x, T):`"""
+        if isinstance(t, ast.Name) and getattr(self, "fn", None) is not None:
+            cache = getattr(self, "_flag_cache", None)
+            if cache is None or cache[0] is not self.fn:
+                from . import astutil as A_
+                defs = A_.single_defs(self.fn)
+                cache = (self.fn, {k: v for k, v in defs.items() if isinstance(v, (ast.Compare, ast.BoolOp)) or (isinstance(v, ast.UnaryOp) and isinstance(v.op, ast.Not))
+                                   or (isinstance(v, ast.Call) and isinstance(v.func, ast.Name) and v.func.id == "isinstance")})
+                self._flag_cache = cache
+            return cache[1].get(t.id, t)
+        return t
+
     def eval_test(self, t, s: State) -> Optional[bool]:
+        t = self._flag_def(t)
         if isinstance(t, ast.Constant):
             return bool(t.value)
         if isinstance(t, ast.UnaryOp) and isinstance(t.op, ast.Not):
@@ -771,6 +787,7 @@ class Analyzer:
         return s.facts.get(K(t))
 
     def assume(self, t, val: bool, s: State):
+        t = self._flag_def(t)
         if isinstance(t, ast.UnaryOp) and isinstance(t.op, ast.Not):
             return self.assume(t.operand, not val, s)
         if isinstance(t, ast.BoolOp):
